@@ -547,6 +547,52 @@ func (e *storeEnv) step(si int, st storeStep, pageSize int) storeStepOut {
 	return o
 }
 
+// nestedProbe: inside a transaction begun for network A, one step is done for network B (the network comes from the
+// request context; an embedding application may well do this when it moves relationships between tenants). The step
+// must read and write B, and only B.
+func (e *storeEnv) nestedProbe() []string {
+	var bad []string
+	ctxA, nidB := e.ctx("A"), e.nids["B"]
+	countOf := func(n string) int {
+		var c int
+		if err := e.reg.Persister().Connection(context.Background()).RawQuery("SELECT COUNT(*) FROM keto_relation_tuples WHERE nid = ?", e.nids[n]).First(&c); err != nil {
+			e.t.Fatalf("count: %v", err)
+		}
+		return c
+	}
+	a0, b0 := countOf("A"), countOf("B")
+	rt := &ketoapi.RelationTuple{Namespace: "n1", Object: "nested-object", Relation: "nested", SubjectID: ptr("nested-subject")}
+	err := e.reg.Persister().Transaction(ctxA, func(tx context.Context) error {
+		txB := context.WithValue(tx, nidKeyT{}, nidB)
+		its, err := e.reg.Mapper().FromTuple(txB, rt)
+		if err != nil {
+			return err
+		}
+		if err := e.reg.RelationTupleManager().WriteRelationTuples(txB, its...); err != nil {
+			return err
+		}
+		ok, err := e.reg.RelationTupleManager().ExistsRelationTuples(txB, its[0].ToQuery())
+		if err != nil {
+			return err
+		}
+		if !ok {
+			bad = append(bad, "a relationship written for network B inside a transaction begun for network A is not found in B")
+		}
+		return nil
+	})
+	if err != nil {
+		return append(bad, "nested step failed: "+err.Error())
+	}
+	if a1, b1 := countOf("A"), countOf("B"); a1 != a0 || b1 != b0+1 {
+		bad = append(bad, fmt.Sprintf("a write for network B inside a transaction begun for network A changed the row counts A %d->%d, B %d->%d", a0, a1, b0, b1))
+	}
+	// remove it again (B only)
+	if err := e.reg.Persister().Connection(context.Background()).RawQuery("DELETE FROM keto_relation_tuples WHERE nid IN (?, ?) AND relation = 'nested'", e.nids["A"], nidB).Exec(); err != nil {
+		e.t.Fatalf("cleanup: %v", err)
+	}
+	return bad
+}
+
 // seedMirror creates network M whose rows carry exactly the namespaces,
 // relations and UUIDs that network A uses for the universe, so that a statement
 // that forgets its nid predicate touches or returns them.
@@ -720,7 +766,11 @@ func famStore(t *testing.T) {
 					}
 					steps = append(steps, so)
 				}
-				out.write(map[string]any{"h": hi, "run": h.Run, "steps": steps, "symbols": e.sym.fwd})
+				var nested []string
+				if in.Mirror {
+					nested = e.nestedProbe()
+				}
+				out.write(map[string]any{"h": hi, "run": h.Run, "steps": steps, "symbols": e.sym.fwd, "nested": nested})
 			})
 		}()
 	}
